@@ -462,7 +462,7 @@ elif mode == "dump":        # fresh interpreter: what does a new FileSet see?
 C_LOCALE = {"LC_ALL": "C", "LANG": "C", "PYTHONUTF8": "0", "PYTHONCOERCECLOCALE": "0"}
 
 
-def child(root, *args, strace=None, timeout=120, env=None):
+def child(root, *args, strace=None, timeout=120, env=None, cwd=None):
     script = os.path.join(root, "child.py")
     if not os.path.exists(script):
         with open(script, "w") as fh:
@@ -471,14 +471,14 @@ def child(root, *args, strace=None, timeout=120, env=None):
     if strace:
         cmd = strace + cmd
     try:
-        return subprocess.run(cmd, capture_output=True, text=True, timeout=timeout,
+        return subprocess.run(cmd, capture_output=True, text=True, timeout=timeout, cwd=cwd,
                               env=None if env is None else dict(os.environ, **env))
     except subprocess.TimeoutExpired:
         return None
 
 
-def dump_fresh(root, cache, env=None):
-    r = child(root, "dump", cache, "-", env=env)
+def dump_fresh(root, cache, env=None, cwd=None):
+    r = child(root, "dump", cache, "-", env=env, cwd=cwd)
     if r is None:
         return None
     for line in r.stdout.splitlines():
@@ -487,7 +487,7 @@ def dump_fresh(root, cache, env=None):
     return {"entries": None, "warnings": [], "exception": "child died: " + r.stderr[-500:]}
 
 
-def restart_case(rec, rng, reset=None):
+def restart_case(rec, rng, reset=None, relative=None):
     root = scratch_dir("c15r")
     try:
         cache = os.path.join(root, "cache.json")
@@ -496,6 +496,12 @@ def restart_case(rec, rng, reset=None):
         if reset is None:
             reset = rng.random() < 0.5
         gen3 = gen_entries(rng, rng.choice([1, 5, 60])) if reset else None
+        cwd = None
+        if relative or (relative is None and len(gen1) == 5):
+            # the cache file is named without a directory (info_cache="cache.json") and every run starts in
+            # the same working directory
+            cache, cwd = "cache.json", root
+            rec.count("restart.bare_relative_cache_name")
         # every other restart runs in processes whose locale encoding is not UTF-8
         loc = C_LOCALE if rng.random() < 0.5 else None
         if loc:
@@ -510,19 +516,19 @@ def restart_case(rec, rng, reset=None):
                 json.dump(ser(gen3), open(rows3, "w"))
                 extra = [rows3]
                 rec.count("restart.reset_runs")
-            r = child(root, "atexit", cache, rows, route, *extra, env=loc)
+            r = child(root, "atexit", cache, rows, route, *extra, env=loc, cwd=cwd)
             rec.ev()
             rec.count("restart.runs")
             if r is None:
                 rec.inconc("restart child timed out")
                 return
-        d = dump_fresh(root, cache, env=loc)
+        d = dump_fresh(root, cache, env=loc, cwd=cwd)
         if reset:
             want = {e["path"]: e for e in gen3}
         else:
             want = {e["path"]: e for e in gen1}
             want.update({e["path"]: e for e in gen2})
-        case = {"kind": "restart", "reset": reset, "gen1": ser(gen1)[:5], "gen2": ser(gen2)[:5]}
+        case = {"kind": "restart", "reset": reset, "relative": bool(cwd), "gen1": ser(gen1)[:5], "gen2": ser(gen2)[:5]}
         if d is None or d["exception"] or d["entries"] is None:
             rec.violation("cache-restart", case, {"dump": d})
             return
@@ -975,7 +981,7 @@ def run_shard(spec, rec):
             if i % 8 == 0:
                 find_case(rec, rng)
         for k in range(1 if spec["n"] <= 40 else 12):
-            restart_case(rec, rng, reset=(spec["shard"] + k) % 2 == 1)
+            restart_case(rec, rng, reset=(spec["shard"] + k) % 2 == 1, relative=(spec["shard"] // 2 + k) % 2 == 1)
     elif kind == "faults":
         for _ in range(spec["n"]):
             fault_cases(rec, rng)
@@ -998,6 +1004,6 @@ def replay(case, rec):
     elif k == "kill":
         kill_cases(rec, rng, {"seed": case["seed"], "shard": 0, "of": 1, "n": 0})
     elif k == "restart":
-        restart_case(rec, rng, reset=case.get("reset"))
+        restart_case(rec, rng, reset=case.get("reset"), relative=case.get("relative"))
     elif k == "find":
         find_case(rec, rng)
